@@ -17,8 +17,8 @@ def parity(run, model, rule="C13.parity"):
     for fn, args in (
         (gates.c01_gate, ()), (gates.c02_gate, ()), (gates.c08_place, ()), (gates.c16_phases, ()), (gates.c19_reserved_call, ()), (gates.c19_result_old, ()),
         (gates.c05_select_mapping, ()), (gates.c02_result_identity, ()), (gates.c02_exc_transparent, ()),
-        (marker.report_rule, ("C10.own-release", marker.MARKER_REGIONS)), (marker.report_rule, ("C10.test-first", marker.MARKER_REGIONS)),
-        (marker.report_rule, ("C10.held-for-contracts", marker.MARKER_REGIONS)), (marker.report_rule, ("C11.release-on-all-exits", marker.MARKER_REGIONS)),
+        (marker.report_rule, ("C10.own-release", marker.MARKER_REGIONS_ALL)), (marker.report_rule, ("C10.test-first", marker.MARKER_REGIONS)),
+        (marker.report_rule, ("C10.held-for-contracts", marker.MARKER_REGIONS)), (marker.report_rule, ("C11.release-on-all-exits", marker.MARKER_REGIONS_ALL)),
         (marker.body_rules, ()), (marker.key_rule, ()), (marker.finally_clean, ()), (inv.phases, ()),
     ):
         sub.do(fn, model, *args)
